@@ -7,7 +7,8 @@ PROP = dict(
                        "C22_impl_selected_unique", "C22_dispatch", "C22_method_by_name", "C22_label_injective",
                        "C22_label_stable", "C22_label_per_instantiation", "C22_operator_method",
                        "C22_num_operators_distinct", "C22_label_qualified", "C22_unqualified_label_clash",
-                       "C22_method_value_eq_call", "C22_method_value_by_name"],
+                       "C22_method_value_eq_call", "C22_method_value_by_name",
+                       "C22_method_by_position_counterexample"],
     harness_bin="c22",
     mismatch_is_violation=True,
     rule="(quick) 160 / (thorough) 3000 seeded programs: a two-method user interface implemented for a seeded subset (3-12) of "
@@ -51,8 +52,13 @@ PROP = dict(
         "if accepted the correct count)",
         "implementations of one interface have pairwise different type keys (the checker rejects overlapping implementations; "
         "hypothesis of C22_impl_selected_unique)",
-        "the method of the selected implementation is looked up by name (D48 repaired); until that fix and D49 (arithmetic "
-        "operators on a user Num type panic the compiler) land, the check reports them",
+        "the method of the selected implementation is looked up by name (D48) and arithmetic operators on a user Num type "
+        "call its methods (D49); both repairs have landed in /repo and the model follows them",
+        "C22_method_value_eq_call holds by rfl (the model defines the value path like the call path); the tie of /repo's value "
+        "path to the model is the `monov` correspondence only",
+        "labels: the model's Ty.code is the descriptor's type identity (declaration ids), not the printed label text, which "
+        "in /repo names nominal types by their unqualified name; distinctness in /repo comes from the func_map key and the "
+        "label counter and is tied by the `monolabel` correspondence",
     ],
     design_ref="DESIGN.md §6 C22",
     level_text="Theorems about a model of MonomorphEnv::update, Type::subst, extract_impl_ty, SolvedType::key/fits_impl_ty, "
